@@ -132,10 +132,10 @@ func c12(args []string) {
 			cent      int
 			lo, hi    int // day numbers whose year is unambiguous under this split
 		}
-		// day numbers: 1951-01-02 = 18264, 2049-12-31 = 54422, 2000-01-01 = 36160, 1999-12-31 = 36159
+		// day numbers: 1950-01-01 = 17898 (two-digit year 50 = the split: 19yy), 2049-12-31 = 54422, 2000-01-01 = 36160, 1999-12-31 = 36159
 		cfgs := []cfgCase{
-			{"DateDEshort", "311299", 50, 18264, 54422}, {"DateDElong", "31121999", 50, 18264, 54422},
-			{"DateENshort", "123199", 50, 18264, 54422}, {"DateENlong", "12311999", 50, 18264, 54422},
+			{"DateDEshort", "311299", 50, 17898, 54422}, {"DateDElong", "31121999", 50, 17898, 54422},
+			{"DateENshort", "123199", 50, 17898, 54422}, {"DateENlong", "12311999", 50, 17898, 54422},
 			{"DateDEshort", "311299", 100, 36160, 72684}, {"DateENshort", "123199", 100, 36160, 72684}, // all two-digit years are 20yy
 			{"DateDEshort", "311299", 0, 1, 36159}, {"DateENshort", "123199", 0, 1, 36159}, // all are 19yy
 		}
@@ -153,8 +153,8 @@ func c12(args []string) {
 			hp := hermes.NewHermesFilePath(tmp, pn, "u", "", "")
 			hermes.VerifReadConfig(&gs[i], map[string]string{}, &hp)
 		}
-		checked := 0
-		for n := 1; n <= 72684; n += 1 + r.intn(60) {
+		checked, langChecked := 0, 0
+		checkDay := func(n int) {
 			t := base.AddDate(0, 0, n)
 			order := []int{0, 1, 2, 3, 4, 5, 6, 7, 7, 6, 5, 4, 3, 2, 1, 0, 2, 0, 5, 7}
 			for _, i := range order {
@@ -180,10 +180,26 @@ func c12(args []string) {
 				if zt, mas := gs[i].Datum(bare); mas != n || zt != t.YearDay() {
 					fail("configured Datum format=%s split=%d text=%s -> masdat=%d doy=%d want %d %d", c.name, c.cent, bare, mas, zt, n, t.YearDay())
 				}
+				// the third converter readConfig installs (longday.go, fertiliser prediction date): the day numbers it
+				// returns for a date text lie in the civil year of that text (its own century fold agrees with Datum's)
+				if _, p1, p2 := gs[i].LangTag(52.5, bare, 0); p1 > 0 && p2 > 0 {
+					if y1, y2 := base.AddDate(0, 0, p1).Year(), base.AddDate(0, 0, p2).Year(); y1 != t.Year() || y2 != t.Year() {
+						fail("configured LangTag format=%s split=%d text=%s -> day numbers %d %d in years %d %d, the text's year is %d", c.name, c.cent, bare, p1, p2, y1, y2, t.Year())
+					}
+					langChecked++
+				}
 				checked++
 			}
 		}
+		for n := 1; n <= 72684; n += 1 + r.intn(60) {
+			checkDay(n)
+		}
+		// the years on both sides of the century split 50 (two-digit year == split, split - 1) and of 2000
+		for _, d := range [][3]int{{1950, 1, 1}, {1950, 6, 15}, {1950, 12, 31}, {2049, 1, 1}, {2049, 12, 31}, {1951, 1, 1}, {1999, 12, 31}, {2000, 1, 1}, {2000, 2, 29}} {
+			checkDay(int(time.Date(d[0], time.Month(d[1]), d[2], 0, 0, 0, 0, time.UTC).Sub(base).Hours() / 24))
+		}
 		fmt.Fprintf(w, "CONFIGURED %d\n", checked)
+		fmt.Fprintf(w, "LANGTAG %d\n", langChecked)
 	}
 	// the day loop's own day of year and year length against the calendar on a run that crosses the end of the year
 	// 2000 (a leap year divisible by 100): g.TAG is what sowing/harvest day-of-year outputs and the weather index use
